@@ -219,6 +219,17 @@ def rule_cl_all(ctx):
         if not why:
             srcp = ctx.resolve(b, cl.arg_path(0))[1]
             dstp = ctx.resolve(b, ins[0].arg_path(0))[1]
+            if srcp is not None and not (1 <= srcp.root <= b.arg_count):
+                # `if let Some(old) = pending.as_ref()`: the payload of x.as_ref() is the payload of *x
+                d0 = b.unique_def(srcp.root)
+                if d0 is not None and d0[1] == "call" and ctx.call_at(b, d0[0].bb).name in (OPT + "as_ref", OPT + "as_mut"):
+                    ap = ctx.call_at(b, d0[0].bb).arg_path(0)
+                    el = list(srcp.elems)
+                    if ap is not None and len(el) >= 3 and el[0][0] == "downcast" and el[1][0] == "field" and el[2] == ("deref",):
+                        q = ap.extend(("deref",)).extend(el[0]).extend(el[1])
+                        for e in el[3:]:
+                            q = q.extend(e)
+                        srcp = q
             if ctx.roles.s_prefix(srcp) is not None:
                 # the copier works on the split tables themselves
                 check_pair(b, dstp.strip_refs() if dstp is not None else None, srcp, b.where(Loc(0, 0)), "%s:tables" % path)
@@ -874,6 +885,17 @@ def _dropped_nonempty(ctx, b, start_bb, first_holder, no_user_code=False):
                         fbs = c.closure_args() + c.fn_value_args()
                         if fbs and all(any(x.tname in (HBT + "into_iter", HBT + "into_iter_from") for x in ctx.calls(fb)) for fb in fbs):
                             continue
+                        # .. or whose closure only picks the table out of the record (`|old| old.table`): the result holds the table now
+                        if c.name == OPT + "map" and len(fbs) == 1 and not [x for x in ctx.calls(fbs[0]) if not fbs[0].is_cleanup(x.loc.bb)] \
+                                and c.dest is not None and not c.dest["proj"]:
+                            fb = fbs[0]
+                            rets = [d for d in fb.defs().get(0, []) if not fb.is_cleanup(d[0].bb)]
+                            if len(rets) == 1 and rets[0][1] == "assign" and rets[0][2]["rv"]["k"] == "use" and rets[0][2]["rv"]["op"]["k"] == "move":
+                                q = fb.op_path(rets[0][2]["rv"]["op"])
+                                if q is not None and q.root == 2 and q.fields() and ro.is_old_place(Path(q.root, q.elems)) or \
+                                        (q is not None and q.root == 2 and [e for e in q.elems if e[0] == "field" and e[1] == ro.O and e[2] == ro.O_table]):
+                                    holders.add(c.dest["local"])
+                                    continue
                     if c.name in ("core::mem::replace", "core::mem::swap"):
                         q = c.arg_path(0)
                         if q is not None and (ro.is_main_place(ctx.resolve(b, q)[1]) or ro.is_old_place(ctx.resolve(b, q)[1])):
